@@ -311,6 +311,17 @@ impl Hash for Key {
         self.id.hash(h)
     }
 }
+impl PartialOrd for Key {
+    fn partial_cmp(&self, o: &Key) -> Option<Ordering> {
+        Some(self.cmp(o))
+    }
+}
+/// Not used by the crate: lets std's `Iterator::min` / `max` run on the pairs an iterator yields.
+impl Ord for Key {
+    fn cmp(&self, o: &Key) -> Ordering {
+        self.id.0.cmp(&o.id.0)
+    }
+}
 impl Borrow<KeyId> for Key {
     fn borrow(&self) -> &KeyId {
         &self.id
